@@ -73,3 +73,35 @@ pub fn run(args: &[&str]) -> String {
         }
     }
 }
+
+/// kind `f32sweep <start hex> <count>` — C09's own quantifier "all 2^32 f32 bit patterns": every pattern in the range is
+/// formatted as response data and read back (a) through the library's parser and (b) through Rust's str::parse; finite
+/// values must come back bit for bit, NaN and the infinities must be the SCPI sentinels 9.91E+37 / +-9.9E+37, and the
+/// text must be NRf.  Release builds visit every pattern, debug builds every 61st (same verdict line).  `OK` or the
+/// first failure.
+pub fn sweep(args: &[&str]) -> String {
+    let start = u64::from_str_radix(args[0], 16).unwrap();
+    let count: u64 = args[1].parse().unwrap();
+    let step: u64 = if cfg!(debug_assertions) { 61 } else { 1 };
+    let mut b = start;
+    let mut out: Vec<u8> = Vec::with_capacity(64);
+    while b < start + count {
+        let bits = b as u32;
+        let v = f32::from_bits(bits);
+        out.clear();
+        if let Err(e) = v.format_response_data(&mut out) { return format!("FAIL {:08x} format error {}", bits, show_error(&e)); }
+        let ok_syntax = !out.is_empty() && out.iter().all(|c| c.is_ascii_digit() || matches!(c, b'+' | b'-' | b'.' | b'e' | b'E'))
+            && (out[0].is_ascii_digit() || ((out[0] == b'+' || out[0] == b'-') && out.len() > 1 && (out[1].is_ascii_digit() || out[1] == b'.')) || out[0] == b'.');
+        if !ok_syntax { return format!("FAIL {:08x} {} not NRf", bits, hex(&out)); }
+        let lib = { let mut t = Tokenizer::new_params(&out);
+                    match t.next() { Some(Ok(tok)) => f32::try_from(tok).ok(), _ => None } };
+        let rust = std::str::from_utf8(&out).ok().and_then(|s| s.parse::<f32>().ok());
+        let want = if v.is_nan() { 9.91e37f32 } else if v == f32::INFINITY { 9.9e37 } else if v == f32::NEG_INFINITY { -9.9e37 } else { v };
+        match (lib, rust) {
+            (Some(a), Some(c)) if a.to_bits() == want.to_bits() && c.to_bits() == want.to_bits() => {}
+            _ => return format!("FAIL {:08x} {} reads back as {:?} / {:?}", bits, hex(&out), lib.map(|x| x.to_bits()), rust.map(|x| x.to_bits())),
+        }
+        b += step;
+    }
+    "OK".into()
+}
